@@ -134,11 +134,36 @@ Lemma kron_root_inv_threshold ops c m :
        (fun Rs => ret (s_dat (kron_of ar Rs), s_cols (kron_of ar Rs), None)).
 Proof. intros a H. subst a. simpl in *. rewrite H. reflexivity. Qed.
 
-(* below the threshold the method argument of root_inv_decomposition is dropped (super().root_inv_decomposition()) *)
+(* below the threshold, source variant "no arguments" (pinned tree): the method argument of root_inv_decomposition is
+   dropped (super().root_inv_decomposition()) *)
 Lemma kron_root_inv_small_ignores_method ops c m m' :
+  kron_noargs st = true ->
   let a := alg ar orc st (EKron ops) in
   (Z.of_nat (a_n a) <=? mcs st)%Z = true -> a_rootinv a c m = a_rootinv a c m'.
+Proof. intros Hf a H. subst a. simpl in *. rewrite H, Hf. reflexivity. Qed.
+
+(* ... and in either source variant the small branch IS the base-class root_inv_decomposition of this object (its
+   _cholesky / _symeig / diagonalization / _svd / _root_inv_decomposition), run with method None resp. the given method *)
+Lemma kron_root_inv_small_is_base ops c m :
+  let a := alg ar orc st (EKron ops) in
+  (Z.of_nat (a_n a) <=? mcs st)%Z = true ->
+  a_rootinv a c m =
+  gen_root_inv ar orc st (a_n a) (a_dense a) c (bind (a_chol a false) (fun L => ret L)) (a_symeig a) (a_diag a MNone) (a_svd a)
+               (a_rootinvL (alg ar orc st (EDense (a_n a) (a_dense a)))) (a_root a c MNone)
+               (if kron_noargs st then MNone else m).
 Proof. intros a H. subst a. simpl in *. rewrite H. reflexivity. Qed.
+
+(* whichever variant the source has (b): the small branch runs the base algorithm with method None resp. the given one *)
+Lemma kron_root_inv_small_flag (b : bool) ops c m :
+  kron_noargs st = b ->
+  let a := alg ar orc st (EKron ops) in
+  (Z.of_nat (a_n a) <=? mcs st)%Z = true ->
+  a_rootinv a c m = a_rootinv a c (if b then MNone else m).
+Proof.
+  intros Hf a H. destruct b.
+  - apply (kron_root_inv_small_ignores_method ops c m MNone Hf H).
+  - reflexivity.
+Qed.
 
 (* triangular operators refuse the Cholesky and Lanczos-root routes *)
 Lemma tri_raises n upper Tm :
